@@ -824,7 +824,7 @@ func checkChooseHost(c *Ctx) {
 			}
 			nret++
 			site := fmt.Sprintf("%s return#%d", fnKey(fn), nret)
-			v := ret.Results[0]
+			v := returnedValues(ret)[0]
 			if derivesIP(v, isRepl, 2) {
 				if iroCall != nil && condEdge(b, iroCall, true) {
 					c.OK("R5", site+" replica-under-readonly", ret.Pos(), "return value can derive from Replicas; dominated by IsReadOnly()==true")
@@ -915,7 +915,7 @@ func checkChooseHost(c *Ctx) {
 			}
 			nr++
 			site := fmt.Sprintf("%s return#%d owner-or-fallback", fnKey(fn), nr)
-			v := ret.Results[0]
+			v := returnedValues(ret)[0]
 			if _, isC := v.(*ssa.Const); isC {
 				c.OK("R5", site, ret.Pos(), "constant (error path)")
 				return
